@@ -41,6 +41,27 @@ func ReaderKinds(dir string) []ReaderKind {
 			r := strings.NewReader(string(data))
 			return r, func() int { return len(data) - r.Len() }, func() {}, nil
 		}},
+		{"*bytes.Buffer", func(data []byte) (io.Reader, func() int, func(), error) {
+			b := bytes.NewBuffer(append(make([]byte, 0, len(data)+64), data...))
+			return b, func() int { return len(data) - b.Len() }, func() {}, nil
+		}},
+		{"*io.SectionReader over a larger buffer", func(data []byte) (io.Reader, func() int, func(), error) {
+			all := append(append(append([]byte{}, prelude...), data...), prelude...)
+			r := io.NewSectionReader(bytes.NewReader(all), int64(len(prelude)), int64(len(data)))
+			return r, func() int {
+				pos, _ := r.Seek(0, io.SeekCurrent)
+				return int(pos)
+			}, func() {}, nil
+		}},
+		{"*io.LimitedReader over a longer stream", func(data []byte) (io.Reader, func() int, func(), error) {
+			all := append(append([]byte{}, data...), prelude...)
+			r := &io.LimitedReader{R: bytes.NewReader(all), N: int64(len(data))}
+			return r, func() int { return len(data) - int(r.N) }, func() {}, nil
+		}},
+		{"io.MultiReader of two halves", func(data []byte) (io.Reader, func() int, func(), error) {
+			h := len(data) / 2
+			return io.MultiReader(bytes.NewReader(data[:h]), bytes.NewReader(data[h:])), func() int { return -1 }, func() {}, nil
+		}},
 		{"*bufio.Reader", func(data []byte) (io.Reader, func() int, func(), error) {
 			return bufio.NewReaderSize(bytes.NewReader(data), 64), func() int { return -1 }, func() {}, nil
 		}},
